@@ -45,6 +45,11 @@ LEVEL_TEXT += (
     "lossy stores into copies of operands (dtype flow), constrained set "
     "repeat-free on every path of _init_bc, storage format established "
     "before raw CSR arrays are read, data-dependent divisors guarded.")
+LEVEL_TEXT += (
+    " Added in the second hunting round (DESIGN.md 9.6): "
+    "a stored true quotient needs a floating buffer; format-specific "
+    "flags of a sparse matrix are read after a conversion or with a "
+    "default.")
 LEVEL_NOTE = (
     "Trusted: scipy.sparse indexing A[I][:, D], setdiag, numpy.setdiff1d / "
     "unique / arange / nonzero semantics. Not decided: floating-point "
